@@ -1,17 +1,13 @@
 SPECIFICATION Spec
 CONSTANTS
- Threads = {1,2,3,4}
+ Threads = {1,2}
  Main = 1
- MaxNodes = 3
+ MaxNodes = 2
  MaxOps = 2
  FixUninit = TRUE
  FixDetector = TRUE
  FixNifty = TRUE
  AtomicAdopt = TRUE
  RefreshExpected = TRUE
-INVARIANT NoShare
-INVARIANT OwnedInUse
-INVARIANT Reclaimed
-INVARIANT ListComplete
-INVARIANT FreedAtExit
+INVARIANT NotWitnessPushRetry
 CHECK_DEADLOCK FALSE
